@@ -203,6 +203,7 @@ static spif_char_t expect_at(spif_url_t u, size_t k)
 void harness(void)
 {
     /* any URL object: text in either legal state, every component absent or present */
+    libast_debug_level = nondet_uint();          /* every run-time debug level */
     spif_url_t u = malloc(sizeof(spif_const_url_t));
     spif_class_t cls0 = SPIF_CLASS_VAR(url) = &u_class;
     SPIF_STRCLASS_VAR(str) = (spif_strclass_t) nondet_ptr();
